@@ -18,6 +18,7 @@ mod hasher;
 mod huff;
 mod metablock;
 mod fragment;
+mod zopfli;
 
 fn main() {
     let args = util::parse_args();
@@ -38,6 +39,7 @@ fn main() {
         "huff" => huff::run_cmd(&args),
         "metablock" => metablock::run_cmd(&args),
         "fragment" => fragment::run_cmd(&args),
+        "zopfli" => zopfli::run_cmd(&args),
         "concat1" => concat::run_one(&args),
         other => {
             eprintln!("unknown subcommand {}", other);
